@@ -104,6 +104,7 @@ def step (s : St) (toks : List String) : St × String :=
     let j := natOr j 99
     match s.its[j]? with
     | some (some it) =>
+      if iterNextPanics s.t it then (s, "panic") else
       let r := iterNext s.cmp s.t it
       ({ s with its := s.its.set! j (some r.1) },
         match r.2 with
